@@ -28,12 +28,10 @@ def default_stop(world):
             st = world.states[p]
             if not p.exited and st.k < st.spec.get('n_frames', sc['n_frames']):
                 return None
-        lt = 0
-        for e in reversed(world.events[-80:]):
-            if e[0] in ('in', 'pub', 'start', 'fault', 'life'):
-                lt = e[2]
-                break
-        if now - lt > settle:
+        if world.net.pending_connections():
+            return None          # a connection is still being established: the pipeline is not quiet yet
+        lt = world.last_activity_ns
+        if now - max(lt, world.net.last_change_ns) > settle:
             return 'settled'
         return None
 
